@@ -370,18 +370,19 @@ next:
 		if n == -1 {
 			return 0, Nil, true
 		}
-		full := n + 2
+		left := n + 2 // what is still to be taken off the connection: the rest of the payload and its CRLF
 		if n != 0 {
 			lr := lrs.Get().(*io.LimitedReader)
 			lr.R = i
 			lr.N = n
 			n, err = io.Copy(w, lr)
+			left = lr.N + 2 // lr.N counts what was read, which is more than what was written when w failed
 			lr.R = nil
 			lrs.Put(lr)
 		} else if typ == typeChunk {
 			return n, err, true
 		}
-		if _, err2 := i.Discard(int(full - n)); err2 == nil {
+		if _, err2 := i.Discard(int(left)); err2 == nil {
 			clean = true
 		} else if err == nil {
 			err = err2
